@@ -268,7 +268,7 @@ def coq_escape(s):
 
 def coq_sample_check(prop, cases, model_lines, timeout=600):
     """re-evaluate a sample of cases with vm_compute inside Coq and compare with the extracted driver"""
-    idx = [i for i, c in enumerate(cases) if len(c) < 1500 and all(32 <= ord(ch) < 127 for ch in c) and
+    idx = [i for i, c in enumerate(cases) if len(c) < prop.get('coq_sample_maxlen', 1500) and all(32 <= ord(ch) < 127 for ch in c) and
            all(32 <= ord(ch) < 127 or ch == '\t' for ch in model_lines[i])]
     if not idx:
         return True, 0, 'no sample'
@@ -290,7 +290,7 @@ def coq_sample_check(prop, cases, model_lines, timeout=600):
         f.write('].\n')
         f.write('Definition sample_ok := forallb (fun ce => bytes_eqb (%s.run_line (fst ce)) (snd ce)) sample_cases.\n' % mod.split('.')[-1])
         f.write('Eval vm_compute in sample_ok.\n')
-    rc, out = sh(['timeout', str(timeout), 'coqc', '-noglob', '-Q', COQ, 'HN', 'sample.v'], cwd=d, timeout=timeout + 30)
+    rc, out = sh('ulimit -s unlimited 2>/dev/null; timeout %d coqc -noglob -Q %s HN sample.v' % (timeout, COQ), cwd=d, timeout=timeout + 30)
     ok = rc == 0 and re.search(r'=\s*true', out) is not None
     return ok, len(idx), out[-2000:]
 
